@@ -1,0 +1,56 @@
+//go:build verif
+
+package ecs
+
+// Tracing hooks for trace validation (build tag "verif"): every structural operation of a World reports
+// what was called, and whether it panicked, to TraceSink. The sink (installed by a test main) reads the
+// state of the world and writes the trace; nothing here changes the behaviour of the library.
+
+const traceEnabled = true
+
+// TraceOp describes one traced call.
+type TraceOp struct {
+	World     *World
+	Kind      string
+	Entity    Entity
+	Add       []ID
+	Rem       []ID
+	Relations []relationID
+	Batch     *Batch
+	Count     int
+	Panic     bool
+	Msg       any
+}
+
+// TraceSink receives the begin (end = false) and the end (end = true) of every traced call,
+// and every change of the number of world locks (Kind "Lock", Count = +1 / -1).
+var TraceSink func(op *TraceOp, end bool)
+
+type traceSpan struct{ op *TraceOp }
+
+func (w *World) traceBegin(kind string, entity Entity, add, rem []ID, relations []relationID, batch *Batch, count int) traceSpan {
+	if TraceSink == nil {
+		return traceSpan{}
+	}
+	op := &TraceOp{World: w, Kind: kind, Entity: entity, Add: add, Rem: rem, Relations: relations, Batch: batch, Count: count}
+	TraceSink(op, false)
+	return traceSpan{op}
+}
+
+func (s traceSpan) end() {
+	if s.op == nil {
+		return
+	}
+	if r := recover(); r != nil {
+		s.op.Panic, s.op.Msg = true, r
+		TraceSink(s.op, true)
+		panic(r)
+	}
+	TraceSink(s.op, true)
+}
+
+func (w *World) traceLock(delta int) {
+	if TraceSink != nil {
+		TraceSink(&TraceOp{World: w, Kind: "Lock", Count: delta}, true)
+	}
+}
